@@ -7,4 +7,7 @@ MSpec == MInit /\ [][MStep]_vars
 \* composite table: one printed row per (composite, raw tuple)
 MCInit == CInit /\ PrintT(ToJson([crow |-> CRow]))
 MCSpec == MCInit /\ [][CNext]_vars
+\* parametric table: one printed row per (family, range, lattice raw)
+MPInit == PInit /\ PrintT(ToJson([prow |-> PRow]))
+MPSpec == MPInit /\ [][PNext]_vars
 ====
